@@ -26,6 +26,27 @@ theorem recovery_exact_lost (p : Params) (g : Block) (hg : g.header.height = 0) 
     reopen p g (crashD p s b 0) = (reopen p g s.dur).map (withFileLen (crashD p s b 0).fileLen) :=
   reopen_crash0 p g s b (reach_synced p g hg s hr)
 
+/-- **Any sequence of crashes.** After a crash behind the first commit of `submitBlock`, every following start may
+itself stop inside `recoverStore` (before the event commit, between the event and the state commit, after the state
+commit), any number of times: the stores are then again in one of the crash states of the original submission
+(`crashD … j`, 1 ≤ j ≤ 3), and the first start that runs to completion yields exactly the ledger of a restart after the
+complete submission. -/
+theorem recovery_exact_any_crash_sequence (p : Params) (g : Block) (hg : g.header.height = 0) (s : State)
+    (hr : Reach p g s) (b : Block) (hh : b.header.height = s.mem.currHeight + 1) (d : Durable)
+    (hc : CrashChain p g s b d) :
+    (∃ j, 1 ≤ j ∧ j ≤ 3 ∧ d = crashD p s b j) ∧
+    reopen p g d = reopen p g (submitted p s b (p.exec s.dur.states.kv b)).dur :=
+  ⟨crashChain_form p g s b d (reach_synced p g hg s hr) hh hc,
+   reopen_crashChain p g s b d (reach_synced p g hg s hr) hh hc⟩
+
+/-- On a consistent ledger (in particular after a crash before the first commit, or after the last one) a restart
+replays nothing, so it cannot stop inside `recoverStore`. -/
+theorem no_recovery_crash_without_gap (p : Params) (g : Block) (hg : g.header.height = 0) (s : State)
+    (hr : Reach p g s) (b : Block) (r : Nat) :
+    reopenCrash p g s.dur r = none ∧ reopenCrash p g (crashD p s b 0) r = none :=
+  ⟨reopenCrash_synced p g s _ r (reach_synced p g hg s hr) (sameStores_self s (reach_synced p g hg s hr)),
+   reopenCrash_synced p g s _ r (reach_synced p g hg s hr) (crashD0_same p s b (reach_synced p g hg s hr))⟩
+
 /-- The crash states of the model are those of `submitBlock`: point 3 is the durable state of the completed call. -/
 theorem crash_point_3_is_submitted (p : Params) (s s' : State) (b : Block)
     (h : submitBlock p s b (p.exec s.dur.states.kv b) = .ok s') : s'.dur = crashD p s b 3 := by
